@@ -23,6 +23,24 @@ int main(int argc, char **argv)
             printf("VIOLATED post.own_bare_jid_is_user_at_domain_or_the_domain_alone: user='%s' domain='%s' host='%s' resource='%s' port=%d -> jidBare()='%s', expected '%s'\n",
                    qPrintable(u), qPrintable(d), qPrintable(h), qPrintable(r), port, qPrintable(c.jidBare()), qPrintable(want));
         }
+        // the same postcondition after each setter that changes a part of the address (a configuration with a history)
+        for (const auto &u2 : users) for (const auto &d2 : domains) {
+            c.setUser(u2);
+            const QString w1 = u2.isEmpty() ? d : u2 + QChar('@') + d;
+            probes++;
+            if (c.jidBare() != w1) {
+                bad++;
+                printf("VIOLATED post.own_bare_jid_is_user_at_domain_or_the_domain_alone: after jidBare() then setUser('%s') with domain='%s' -> jidBare()='%s', expected '%s'\n", qPrintable(u2), qPrintable(d), qPrintable(c.jidBare()), qPrintable(w1));
+            }
+            c.setDomain(d2);
+            const QString w2 = u2.isEmpty() ? d2 : u2 + QChar('@') + d2;
+            probes++;
+            if (c.jidBare() != w2) {
+                bad++;
+                printf("VIOLATED post.own_bare_jid_is_user_at_domain_or_the_domain_alone: after jidBare() then setDomain('%s') with user='%s' -> jidBare()='%s', expected '%s'\n", qPrintable(d2), qPrintable(u2), qPrintable(c.jidBare()), qPrintable(w2));
+            }
+            c.setDomain(d);
+        }
     }
     printf("%d probes, %d violated\n", probes, bad);
     return bad ? 1 : 0;
